@@ -160,94 +160,116 @@ func TestC08FailedTx(t *testing.T) {
 						rec.Discard("system-method-cannot-be-in-an-accepted-block")
 						continue
 					}
-					res, wf, err := chain.Probe(prober, b, fmt.Sprintf("c%d", ci), [][]byte{d.Raw})
-					if err != nil {
-						fail("probe-panic", "executing %s (%s, mutated=%s) alone in a block panicked: %v", d.Method, d.Note, d.Mutated, err)
-					}
-					fp = append(fp, d.Raw)
-					r0 := res[0]
-					rec.Label(fmt.Sprintf("candidate:%s:%s/%d", d.Method, r0.Codespace, r0.Code))
-					if i := strings.Index(d.Note, "change-parameters:"); i >= 0 {
-						rec.Label(fmt.Sprintf("candidate-proposal:%s:%s/%d", d.Note[i:], r0.Codespace, r0.Code))
-					}
-					if r0.Code == 0 {
-						continue
-					}
-					diff := chain.Diff(base, wf)
-					verdict := chain.Judge(sim.W, pre, d.Raw)
-					if verdict.EnvelopeOK && !bytes.Equal(committedPre[chain.AccountKey(verdict.Addr)], base[chain.AccountKey(verdict.Addr)]) {
-						rec.Discard("signer-account-touched-by-the-block-itself")
-						continue
-					}
-					desc := fmt.Sprintf("%s by %s (%s, mutated=%q) -> %s/%d %q", d.Method, d.Signer, d.Note, d.Mutated, r0.Codespace, r0.Code, r0.Log)
-					preAuthReject := !verdict.PassesAuth() || strings.Contains(r0.Log, "mux: unknown method")
-					if preAuthReject {
-						if len(diff) != 0 {
-							fail("rejected-tx-changed-state", "transaction rejected at/before authentication changed %d state keys (%s): %s", len(diff), chain.FmtKeys(diff), desc)
+					// The candidate, and - for some candidates that execute successfully - a GAS SWEEP derived from it: the same
+					// transaction with a gas limit one below the gas it used fails at its LAST charge; the gas it had used by then,
+					// minus one, is a limit that fails at the charge before - and so on down to the first charge: every point at
+					// which the handler can run out of gas, each judged like any other failed transaction.
+					queue := []*chain.TxDesc{d}
+					for len(queue) > 0 {
+						d := queue[0]
+						queue = queue[1:]
+						res, wf, err := chain.Probe(prober, b, fmt.Sprintf("c%d", ci), [][]byte{d.Raw})
+						if err != nil {
+							fail("probe-panic", "executing %s (%s, mutated=%s) alone in a block panicked: %v", d.Method, d.Note, d.Mutated, err)
 						}
-						rec.Label("failed:rejected-before-auth")
-						continue
-					}
-					// passed authentication and failed later: fee + nonce only
-					allowed := map[string]bool{chain.AccountKey(verdict.Addr): true, chain.CommonPoolKey: true, chain.LastBlockFeesKey: true}
-					if proposerEntity != nil {
-						allowed[chain.AccountKey(*proposerEntity)] = true
-					}
-					for _, k := range diff {
-						if !allowed[k] {
-							fail("failed-tx-changed-state", "failed transaction changed state key %x besides fee and nonce (diff:%s): %s", k, chain.FmtKeys(diff), desc)
+						fp = append(fp, d.Raw)
+						r0 := res[0]
+						rec.Label(fmt.Sprintf("candidate:%s:%s/%d", d.Method, r0.Codespace, r0.Code))
+						if i := strings.Index(d.Note, "change-parameters:"); i >= 0 {
+							rec.Label(fmt.Sprintf("candidate-proposal:%s:%s/%d", d.Note[i:], r0.Codespace, r0.Code))
 						}
-					}
-					a0, af := chain.AccountIn(base, verdict.Addr), chain.AccountIn(wf, verdict.Addr)
-					if af.General.Nonce != a0.General.Nonce+1 {
-						fail("failed-tx-nonce", "failed transaction that passed authentication: signer nonce %d -> %d (want +1): %s", a0.General.Nonce, af.General.Nonce, desc)
-					}
-					// everything in the signer's account except nonce and balance is untouched
-					n0, nf := *a0, *af
-					n0.General.Nonce, nf.General.Nonce = 0, 0
-					n0.General.Balance, nf.General.Balance = *quantity.NewQuantity(), *quantity.NewQuantity()
-					if !bytes.Equal(cbor.Marshal(n0), cbor.Marshal(nf)) {
-						fail("failed-tx-changed-state", "failed transaction changed the signer's account beyond nonce and balance: %s", desc)
-					}
-					// fee conservation over the allowed keys
-					delta := new(big.Int)
-					addDelta := func(x0, xf *big.Int) { delta.Add(delta, new(big.Int).Sub(xf, x0)) }
-					addDelta(q2b(a0.General.Balance), q2b(af.General.Balance))
-					if proposerEntity != nil && *proposerEntity != verdict.Addr {
-						addDelta(q2b(chain.AccountIn(base, *proposerEntity).General.Balance), q2b(chain.AccountIn(wf, *proposerEntity).General.Balance))
-					}
-					for _, k := range []string{chain.CommonPoolKey, chain.LastBlockFeesKey} {
-						var x0, xf quantity.Quantity
-						_ = cbor.Unmarshal(base[k], &x0)
-						_ = cbor.Unmarshal(wf[k], &xf)
-						addDelta(q2b(x0), q2b(xf))
-					}
-					if delta.Sign() != 0 {
-						fail("failed-tx-fee", "fee of a failed transaction is not conserved over signer, proposer, common pool and last block fees (net %s): %s", delta, desc)
-					}
-					if proposerEntity == nil || *proposerEntity != verdict.Addr {
-						want := new(big.Int).Sub(q2b(a0.General.Balance), verdict.Fee)
-						if q2b(af.General.Balance).Cmp(want) != 0 {
-							fail("failed-tx-fee", "signer balance %s -> %s, declared fee %s: %s", a0.General.Balance, af.General.Balance, verdict.Fee, desc)
+						if d.SweepDepth > 0 {
+							rec.Label(fmt.Sprintf("gas-sweep:%s:step=%d:failed=%v", d.Method, min(d.SweepDepth, 6), r0.Code != 0))
 						}
-					}
-					rec.Label("failed:after-auth")
-					if r0.GasUsed > 0 || r0.Codespace != "" {
-						nontrivial++
-					}
-					cls := fmt.Sprintf("%s:%s/%d", d.Method, r0.Codespace, r0.Code)
-					if i := strings.Index(d.Note, "change-parameters:"); i >= 0 {
-						cls += d.Note[i:]
-					}
-					failedAfterAuth = append(failedAfterAuth, failedCand{d.Raw, verdict.Addr, desc, cls})
-					// mempool checks and gas estimation never change committed state
-					_ = chain.Call(func() {
-						prober.Mux.CheckTx(types.RequestCheckTx{Tx: d.Raw, Type: types.CheckTxType_New})
-						prober.Mux.CheckTx(types.RequestCheckTx{Tx: d.Raw, Type: types.CheckTxType_Recheck})
-						if verdict.Tx != nil {
-							_, _ = prober.Srv.EstimateGas(verdict.Signer, verdict.Tx)
+						if r0.Code == 0 {
+							if d.SweepDepth == 0 && r0.GasUsed > 0 && rapid.IntRange(0, 2).Draw(t, "gasSweep") == 0 {
+								if sd := d.WithGas(uint64(r0.GasUsed)-1, 1); sd != nil {
+									queue = append(queue, sd)
+								}
+							}
+							continue
 						}
-					})
+						if d.SweepDepth > 0 && d.SweepDepth < 12 {
+							if next := min(d.Gas, uint64(r0.GasUsed)); next > 0 {
+								queue = append(queue, d.WithGas(next-1, d.SweepDepth+1))
+							}
+						}
+						diff := chain.Diff(base, wf)
+						verdict := chain.Judge(sim.W, pre, d.Raw)
+						if verdict.EnvelopeOK && !bytes.Equal(committedPre[chain.AccountKey(verdict.Addr)], base[chain.AccountKey(verdict.Addr)]) {
+							rec.Discard("signer-account-touched-by-the-block-itself")
+							continue
+						}
+						desc := fmt.Sprintf("%s by %s (%s, mutated=%q) -> %s/%d %q", d.Method, d.Signer, d.Note, d.Mutated, r0.Codespace, r0.Code, r0.Log)
+						preAuthReject := !verdict.PassesAuth() || strings.Contains(r0.Log, "mux: unknown method")
+						if preAuthReject {
+							if len(diff) != 0 {
+								fail("rejected-tx-changed-state", "transaction rejected at/before authentication changed %d state keys (%s): %s", len(diff), chain.FmtKeys(diff), desc)
+							}
+							rec.Label("failed:rejected-before-auth")
+							continue
+						}
+						// passed authentication and failed later: fee + nonce only
+						allowed := map[string]bool{chain.AccountKey(verdict.Addr): true, chain.CommonPoolKey: true, chain.LastBlockFeesKey: true}
+						if proposerEntity != nil {
+							allowed[chain.AccountKey(*proposerEntity)] = true
+						}
+						for _, k := range diff {
+							if !allowed[k] {
+								fail("failed-tx-changed-state", "failed transaction changed state key %x besides fee and nonce (diff:%s): %s", k, chain.FmtKeys(diff), desc)
+							}
+						}
+						a0, af := chain.AccountIn(base, verdict.Addr), chain.AccountIn(wf, verdict.Addr)
+						if af.General.Nonce != a0.General.Nonce+1 {
+							fail("failed-tx-nonce", "failed transaction that passed authentication: signer nonce %d -> %d (want +1): %s", a0.General.Nonce, af.General.Nonce, desc)
+						}
+						// everything in the signer's account except nonce and balance is untouched
+						n0, nf := *a0, *af
+						n0.General.Nonce, nf.General.Nonce = 0, 0
+						n0.General.Balance, nf.General.Balance = *quantity.NewQuantity(), *quantity.NewQuantity()
+						if !bytes.Equal(cbor.Marshal(n0), cbor.Marshal(nf)) {
+							fail("failed-tx-changed-state", "failed transaction changed the signer's account beyond nonce and balance: %s", desc)
+						}
+						// fee conservation over the allowed keys
+						delta := new(big.Int)
+						addDelta := func(x0, xf *big.Int) { delta.Add(delta, new(big.Int).Sub(xf, x0)) }
+						addDelta(q2b(a0.General.Balance), q2b(af.General.Balance))
+						if proposerEntity != nil && *proposerEntity != verdict.Addr {
+							addDelta(q2b(chain.AccountIn(base, *proposerEntity).General.Balance), q2b(chain.AccountIn(wf, *proposerEntity).General.Balance))
+						}
+						for _, k := range []string{chain.CommonPoolKey, chain.LastBlockFeesKey} {
+							var x0, xf quantity.Quantity
+							_ = cbor.Unmarshal(base[k], &x0)
+							_ = cbor.Unmarshal(wf[k], &xf)
+							addDelta(q2b(x0), q2b(xf))
+						}
+						if delta.Sign() != 0 {
+							fail("failed-tx-fee", "fee of a failed transaction is not conserved over signer, proposer, common pool and last block fees (net %s): %s", delta, desc)
+						}
+						if proposerEntity == nil || *proposerEntity != verdict.Addr {
+							want := new(big.Int).Sub(q2b(a0.General.Balance), verdict.Fee)
+							if q2b(af.General.Balance).Cmp(want) != 0 {
+								fail("failed-tx-fee", "signer balance %s -> %s, declared fee %s: %s", a0.General.Balance, af.General.Balance, verdict.Fee, desc)
+							}
+						}
+						rec.Label("failed:after-auth")
+						if r0.GasUsed > 0 || r0.Codespace != "" {
+							nontrivial++
+						}
+						cls := fmt.Sprintf("%s:%s/%d", d.Method, r0.Codespace, r0.Code)
+						if i := strings.Index(d.Note, "change-parameters:"); i >= 0 {
+							cls += d.Note[i:]
+						}
+						failedAfterAuth = append(failedAfterAuth, failedCand{d.Raw, verdict.Addr, desc, cls})
+						// mempool checks and gas estimation never change committed state
+						_ = chain.Call(func() {
+							prober.Mux.CheckTx(types.RequestCheckTx{Tx: d.Raw, Type: types.CheckTxType_New})
+							prober.Mux.CheckTx(types.RequestCheckTx{Tx: d.Raw, Type: types.CheckTxType_Recheck})
+							if verdict.Tx != nil {
+								_, _ = prober.Srv.EstimateGas(verdict.Signer, verdict.Tx)
+							}
+						})
+					}
 				}
 				// ---- a failed transaction AMONG OTHERS: the block's own generated transactions with and without one of the
 				// failing candidates inserted at a generated position. "Changes nothing but fee and nonce" includes what the
